@@ -19,10 +19,13 @@ def run(cmd, cwd=None, timeout=900):
         return 124, 'TIMEOUT'
 
 
+RWAVE = (3, 4)      # refactoring numbers of the wave being imported (first wave: 1-2)
+
+
 def main():
     for prop in sys.argv[1:]:
         src = '/tmp/wt/%s/refactors' % prop
-        for k in (1, 2):
+        for k in RWAVE:
             diff = os.path.join(src, 'r%d.diff' % k)
             probe = os.path.join(src, 'r%d_probe.py' % k)
             if not (os.path.isfile(diff) and os.path.isfile(probe)):
